@@ -1,6 +1,6 @@
 (* C19 — property theorems only.  Each is closed by [exact <lemma>] and followed by
    Print Assumptions; the statements are pinned here so they cannot be quietly weakened. *)
-From FB Require Import C19.Model C19.Acyclic C19.Theory C19.TheoryCoord C19.TheoryPom C19.TheoryCut C19.TheoryFuel C19.TreeBasics C19.TreeBfs C19.TreeMediation C19.TreeOrder C19.TreeTheorems.
+From FB Require Import C19.Model C19.CoordFmtGen C19.Acyclic C19.Theory C19.TheoryTypes C19.TheorySource C19.TheoryCoord C19.TheoryCoordForms C19.TheoryPom C19.TheoryFields C19.TheoryCut C19.TheoryFuel C19.TheoryEffective C19.TheoryPipeline C19.TheoryTreeShow C19.TheoryCycles C19.TheoryRoundtrip C19.TreeBasics C19.TreeBfs C19.TreeMediation C19.TreeOrder C19.TreeTheorems.
 From Coq Require Import Sorting.Sorted.
 
 (* the scope table in the source (regenerated into ScopeGen.v on every run) is Maven's documented table *)
@@ -204,6 +204,253 @@ Print Assumptions C19_fuel_suffices.
 Theorem C19_acyclic_example : acyclic_check ex_files [mkResolver [114%N] [114%N]] ex_ranks = true.
 Proof. exact acyclic_example. Qed.
 Print Assumptions C19_acyclic_example.
+
+(* ==== round 4 ==== *)
+
+(* ---- the collision id, tied to coord.rs by the translator (CoordGen.v): exactly group, artifact, classifier, TYPE ---- *)
+Theorem C19_collision_id_fields : forall a b,
+  dependency_collision_id a = dependency_collision_id b <->
+  c_group a = c_group b /\ c_artifact a = c_artifact b /\ c_classifier a = c_classifier b /\ c_type a = c_type b.
+Proof. exact collision_id_fields. Qed.
+Print Assumptions C19_collision_id_fields.
+
+(* the set's equality test (derived PartialEq/Eq/Hash) decides equality of ids: the hypothesis of C19_mediation_spec *)
+Theorem C19_cid_eqb_decides : forall a b : cid, cid_eqb a b = true <-> a = b.
+Proof. exact cid_eqb_decides. Qed.
+Print Assumptions C19_cid_eqb_decides.
+
+(* the dependency management is searched under the same id *)
+Theorem C19_matches_is_collision_id : forall c g a k t,
+  matches_besides_version c g a k t = true <-> dependency_collision_id c = (g, a, k, t).
+Proof. exact matches_is_collision_id. Qed.
+Print Assumptions C19_matches_is_collision_id.
+
+(* jar and ejb of one artifact have the same file name and are nevertheless not rivals *)
+Theorem C19_types_sharing_an_extension_do_not_collide : forall r g a v,
+  dependency_collision_id (mkCoord g a v None s_jar) <> dependency_collision_id (mkCoord g a v None s_ejb)
+  /\ make_url r (mkCoord g a v None s_jar) = make_url r (mkCoord g a v None s_ejb).
+Proof. exact types_sharing_an_extension_do_not_collide. Qed.
+Print Assumptions C19_types_sharing_an_extension_do_not_collide.
+
+(* ---- the artifact handler tables (arms regenerated from coord.rs), for all strings ---- *)
+Theorem C19_packaging_to_type_identity : forall p, packaging_to_type p = p.
+Proof. exact packaging_to_type_identity. Qed.
+Print Assumptions C19_packaging_to_type_identity.
+
+Theorem C19_type_to_classifier_is_maven : forall t, type_to_classifier t = lookup_str t maven_default_classifiers.
+Proof. exact type_to_classifier_is_maven. Qed.
+Print Assumptions C19_type_to_classifier_is_maven.
+
+Theorem C19_type_to_extension_is_maven : forall t, type_to_extension t = maven_extension t.
+Proof. exact type_to_extension_is_maven. Qed.
+Print Assumptions C19_type_to_extension_is_maven.
+
+(* ---- the printers' format strings as the translator reads them are the model's printers ---- *)
+Theorem C19_printers_are_source :
+  (forall c, print_coord_src c = print_coord c)
+  /\ (forall r c, make_pom_url_src r c = make_pom_url r c)
+  /\ (forall r c, make_url_src r c = make_url r c)
+  /\ (forall d, print_found_src d = print_found d).
+Proof. exact (conj print_coord_is_source (conj make_pom_url_is_source (conj make_url_is_source print_found_is_source))). Qed.
+Print Assumptions C19_printers_are_source.
+
+(* ---- managed fill-in, field by field ---- *)
+Theorem C19_managed_is_first : forall dm k e,
+  managed dm k = Some e <->
+  exists before_e after_e, dm = before_e ++ e :: after_e
+    /\ dependency_collision_id (dd_coord e) = k
+    /\ Forall (fun e' => dependency_collision_id (dd_coord e') <> k) before_e.
+Proof. exact managed_is_first. Qed.
+Print Assumptions C19_managed_is_first.
+
+(* version, scope and optional independently: declared, else managed, else open; the identity is the declared one *)
+Theorem C19_managed_fill_in_fields : forall dm x d,
+  make_dependency dm x = Ok d ->
+  let m := managed dm (dep_key x) in
+  dependency_collision_id (dd_coord d) = dep_key x
+  /\ Some (c_version (dd_coord d)) = or_else (d_version x) (m_version m)
+  /\ dd_scope d = or_else (d_scope x) (m_scope m)
+  /\ dd_optional d = or_else (d_optional x) (m_optional m).
+Proof. exact managed_fill_in_fields. Qed.
+Print Assumptions C19_managed_fill_in_fields.
+
+Theorem C19_make_dependency_error : forall dm x, make_dependency dm x = Err <-> d_version x = None /\ managed dm (dep_key x) = None.
+Proof. exact make_dependency_error. Qed.
+Print Assumptions C19_make_dependency_error.
+
+(* all eight subsets of {version, scope, optional} declared against an entry managing all three *)
+Theorem C19_fill_in_all_subsets : forall v s o,
+  make_dependency ex_managed (ex_decl v s o)
+  = Ok (mkDDone (mkCoord [103%N] [120%N] (if v then [49%N] else [50%N]) None s_jar)
+                (Some (if s then Test else Runtime)) (Some (if o then false else true))).
+Proof. exact fill_in_all_subsets. Qed.
+Print Assumptions C19_fill_in_all_subsets.
+
+(* ---- the effective POM without fuel: in an acyclic universe get_merged_pom (S (length fs)) is the unique solution of
+   "the document of c, inherited along its parents, every import replaced in place by what the solution gives for the BOM" ---- *)
+Theorem C19_effective_pom_fixpoint : forall fs rs ranks, acyclic_check fs rs ranks = true ->
+  forall c, get_merged_pom (S (length fs)) fs rs c = effective_step fs rs (get_merged_pom (S (length fs)) fs rs) c.
+Proof. exact effective_pom_fixpoint. Qed.
+Print Assumptions C19_effective_pom_fixpoint.
+
+Theorem C19_effective_pom_unique : forall fs rs ranks (X : coord -> res (resolver * pdone)),
+  acyclic_check fs rs ranks = true ->
+  (forall c, X c = effective_step fs rs X c) ->
+  forall c, X c = get_merged_pom (S (length fs)) fs rs c.
+Proof. exact effective_pom_unique. Qed.
+Print Assumptions C19_effective_pom_unique.
+
+(* ---- the dependency tree without fuel ---- *)
+(* the model's recursion computes a tree satisfying the declarative description, and every such tree is computed *)
+Theorem C19_dep_tree_computed : forall mf fs rs c sc t,
+  (forall f, get_dependencies_tree mf f fs rs c sc = Ok t -> is_dep_tree (get_merged_pom mf fs rs) c sc t)
+  /\ (is_dep_tree (get_merged_pom mf fs rs) c sc t -> get_dependencies_tree mf (tsize t) fs rs c sc = Ok t).
+Proof. exact (fun mf fs rs c sc t => conj (fun f => tree_is_dep_tree mf fs rs f c sc t) (dep_tree_is_tree mf fs rs t c sc)). Qed.
+Print Assumptions C19_dep_tree_computed.
+
+Theorem C19_dep_tree_unfold : forall E c sc x kids,
+  is_dep_tree E c sc (Node x kids) <->
+  exists r pd, E c = Ok (r, pd) /\ x = mkFound r c sc
+    /\ Forall2 (fun d k => exists s', the_scope_table sc (dd_declared_scope d) = Some s' /\ is_dep_tree E (dd_coord d) s' k)
+               (filter (transitive sc) (pd_deps pd)) kids.
+Proof. exact is_dep_tree_unfold. Qed.
+Print Assumptions C19_dep_tree_unfold.
+
+Theorem C19_dep_tree_unique : forall E t1 c sc t2, is_dep_tree E c sc t1 -> is_dep_tree E c sc t2 -> t1 = t2.
+Proof. exact is_dep_tree_functional. Qed.
+Print Assumptions C19_dep_tree_unique.
+
+(* what sits at a path of the forest, and with which scope: the root's scope composed with the declared scopes of the
+   (non-optional) edges leading there *)
+Theorem C19_forest_paths : forall E roots forest, forest_of E roots forest ->
+  forall p t, at_path forest p t -> exists c sc, derives E roots p c sc /\ is_dep_tree E c sc t.
+Proof. exact forest_paths. Qed.
+Print Assumptions C19_forest_paths.
+
+Theorem C19_scope_along_path : forall E roots p c sc, derives E roots p c sc ->
+  exists i c0 sc0 (edges : list ddone),
+    hd_error p = Some i /\ nth_error roots i = Some (c0, sc0)
+    /\ S (length edges) = length p
+    /\ Forall (fun d => dd_is_optional d = false) edges
+    /\ compose_scopes sc0 (map dd_declared_scope edges) = Some sc
+    /\ c = last (map dd_coord edges) c0.
+Proof. exact derives_scope. Qed.
+Print Assumptions C19_scope_along_path.
+
+(* ---- the whole pipeline, in an acyclic universe ---- *)
+Theorem C19_resolution_pipeline : forall fs rs ranks roots,
+  acyclic_check fs rs ranks = true ->
+  let E := get_merged_pom (S (length fs)) fs rs in
+  (forall f, (length fs < f)%nat -> get_maven_dependencies_fuel f fs rs roots = get_maven_dependencies fs rs roots)
+  /\ (forall out, get_maven_dependencies fs rs roots = Ok out <->
+        exists forest, forest_of E roots forest /\ out = breadth_first (clean_up cid_eqb found_cid forest))
+  /\ (forall f1 f2, forest_of E roots f1 -> forest_of E roots f2 -> f1 = f2)
+  /\ (forall forest, forest_of E roots forest ->
+        let kept := clean_up_kept cid_eqb found_cid forest in
+        let out := breadth_first (clean_up cid_eqb found_cid forest) in
+        is_mediation forest found_cid (fun p => In p kept)
+        /\ StronglySorted before kept
+        /\ NoDup (map found_cid out)
+        /\ Forall2 (fun p d => node_of forest p d /\ derives E roots p (f_coord d) (f_scope d) /\ served_first fs rs d) kept out).
+Proof. exact resolution_pipeline. Qed.
+Print Assumptions C19_resolution_pipeline.
+
+(* ---- cyclic universes: the model has no answer, whatever the fuel (the crate recurses without bound) ---- *)
+Theorem C19_self_cycle_never_resolves : forall mf fs rs c sc,
+  (forall r pd, get_merged_pom mf fs rs c = Ok (r, pd) ->
+     exists d, In d (pd_deps pd) /\ transitive sc d = true /\ dd_coord d = c /\ the_scope_table sc (dd_declared_scope d) = Some sc) ->
+  (forall f, get_dependencies_tree mf f fs rs c sc = Err) /\ (forall t, ~ is_dep_tree (get_merged_pom mf fs rs) c sc t).
+Proof. exact (fun mf fs rs c sc H => conj (self_cycle_never_resolves mf fs rs c sc H) (self_cycle_no_dep_tree mf fs rs c sc H)). Qed.
+Print Assumptions C19_self_cycle_never_resolves.
+
+Theorem C19_cyclic_example :
+  (forall n, get_maven_dependencies_fuel n ex_cyclic_files [mkResolver [114%N] [114%N]] [(ex_cyclic_root, Compile)] = Err)
+  /\ (forall ranks, acyclic_check ex_cyclic_files [mkResolver [114%N] [114%N]] ranks = false).
+Proof. exact (conj cyclic_example cyclic_example_rejected). Qed.
+Print Assumptions C19_cyclic_example.
+
+(* cycles of any length, along each of the three kinds of edges the crate recurses over: a set that cannot be left *)
+Theorem C19_dependency_trap_never_resolves : forall mf fs rs (S : coord -> scope -> Prop),
+  (forall c sc, S c sc -> forall r pd, get_merged_pom mf fs rs c = Ok (r, pd) ->
+     exists d s', In d (pd_deps pd) /\ transitive sc d = true
+                  /\ the_scope_table sc (dd_declared_scope d) = Some s' /\ S (dd_coord d) s') ->
+  forall f c sc, S c sc -> get_dependencies_tree mf f fs rs c sc = Err.
+Proof. exact dependency_trap_never_resolves. Qed.
+Print Assumptions C19_dependency_trap_never_resolves.
+
+Theorem C19_parent_trap_never_resolves : forall fs rs (P : pom -> Prop),
+  (forall p, P p -> exists c, get_parent_coord p = Some c /\ forall r q, try_get_pom_for fs rs c = Ok (r, q) -> P q) ->
+  forall f p, P p -> parent_chain f fs rs p = Err.
+Proof. exact parent_trap_never_resolves. Qed.
+Print Assumptions C19_parent_trap_never_resolves.
+
+Theorem C19_import_trap_never_resolves : forall fs rs (T : coord -> Prop),
+  (forall c, T c -> forall r p f stack, try_get_pom_for fs rs c = Ok (r, p) -> parent_chain f fs rs p = Ok stack ->
+     Exists (imports_into T) (p :: stack)) ->
+  forall f c, T c -> get_merged_pom f fs rs c = Err.
+Proof. exact import_trap_never_resolves. Qed.
+Print Assumptions C19_import_trap_never_resolves.
+
+(* a -> b -> a; a POM that is its own parent; a BOM importing itself: no answer for any fuel *)
+Theorem C19_cycle_examples :
+  (forall n, get_maven_dependencies_fuel n ex_two_cycle ex_r [(ex_c 97, Compile)] = Err)
+  /\ (forall n, get_maven_dependencies_fuel n ex_self_parent ex_r [(ex_c 112, Compile)] = Err)
+  /\ (forall n, get_maven_dependencies_fuel n ex_self_import ex_r [(mkCoord [103%N] (ex_s 98) [49%N] None s_pom, Compile)] = Err).
+Proof. exact (conj two_cycle_example (conj self_parent_example self_import_example)). Qed.
+Print Assumptions C19_cycle_examples.
+
+(* ---- every text the coordinate parser accepts ---- *)
+Theorem C19_parse_coord_forms : forall s c,
+  parse_coord s = Ok c <->
+  exists pieces, Forall (fun p => free_of cCOLON p = true) pieces /\ s = join cCOLON pieces /\ coord_of_pieces pieces = Some c.
+Proof. exact parse_coord_forms. Qed.
+Print Assumptions C19_parse_coord_forms.
+
+Theorem C19_print_of_parse : forall s c, parse_coord s = Ok c ->
+  print_coord c = s
+  \/ exists g a v, s = join cCOLON [g; a; v] /\ print_coord c = join cCOLON [g; a; s_jar; v].
+Proof. exact print_of_parse. Qed.
+Print Assumptions C19_print_of_parse.
+
+(* the parser is injective except for an omitted type against an explicit `jar` *)
+Theorem C19_parse_coord_collisions : forall s1 s2 c, parse_coord s1 = Ok c -> parse_coord s2 = Ok c ->
+  s1 = s2
+  \/ exists g a v, (s1 = join cCOLON [g; a; v] /\ s2 = join cCOLON [g; a; s_jar; v])
+                   \/ (s2 = join cCOLON [g; a; v] /\ s1 = join cCOLON [g; a; s_jar; v]).
+Proof. exact parse_coord_collisions. Qed.
+Print Assumptions C19_parse_coord_collisions.
+
+Theorem C19_print_coord_injective : forall c1 c2, coord_colon_free c1 = true -> coord_colon_free c2 = true ->
+  print_coord c1 = print_coord c2 -> c1 = c2.
+Proof. exact print_coord_injective. Qed.
+Print Assumptions C19_print_coord_injective.
+
+Theorem C19_found_parse_print_parse : forall s d, parse_found s = Ok d -> parse_found (print_found d) = Ok d.
+Proof. exact found_parse_print_parse. Qed.
+Print Assumptions C19_found_parse_print_parse.
+
+(* ---- the resolved list survives printing and re-parsing: when no dependency / management entry of the universe and no
+   root coordinate contains ':' or " @ ", every entry of the list prints to a text that parses back to it (the repository's
+   name, which is not printed, becomes the url) ---- *)
+Theorem C19_resolved_list_roundtrip : forall n fs rs roots out,
+  files_clean fs = true -> Forall (fun r => coord_separator_free (fst r) = true) roots ->
+  get_maven_dependencies_fuel n fs rs roots = Ok out ->
+  Forall (fun d => parse_coord (print_coord (f_coord d)) = Ok (f_coord d)
+                   /\ parse_found (print_found d)
+                      = Ok (mkFound (mkResolver (r_maven (f_resolver d)) (r_maven (f_resolver d))) (f_coord d) (f_scope d))) out.
+Proof. exact resolved_list_roundtrip. Qed.
+Print Assumptions C19_resolved_list_roundtrip.
+
+Theorem C19_roundtrip_example :
+  files_clean ex_files = true /\ coord_separator_free (mkCoord [103%N] (ex_s 99) [49%N] None s_jar) = true.
+Proof. exact roundtrip_example. Qed.
+Print Assumptions C19_roundtrip_example.
+
+(* ---- the tree printer (Display / Debug of Tree, FormattedTree): one line per node ---- *)
+Theorem C19_show_tree_lines : forall (A : Type) (show : A -> str) pal t,
+  (forall a, newlines (show a) = O) -> palette_one_line pal -> newlines (show_tree show pal t) = tsize t.
+Proof. exact show_tree_lines. Qed.
+Print Assumptions C19_show_tree_lines.
 
 (* ---- non-vacuity ---- *)
 Theorem C19_examples :
